@@ -49,6 +49,15 @@ func VerifC04_batched_request_canon() {
 	fresh := BatchedTokenRequest{token_requests: r.token_requests}
 	enc := fresh.Marshal()
 	vAssert(len(enc) <= len(b), "canonical-no-longer")
+	// the decoded object itself re-encodes to that canonical form (not to whatever it was decoded
+	// from: a non-minimal length prefix is accepted but must not come back out), and keeps doing so
+	// when the caller reuses the input buffer
+	vAssert(vBytesEq(r.Marshal(), enc), "decoded-object-re-encodes-canonically")
+	if len(b) > 0 {
+		b[len(b)-1] ^= 0x5a
+		b[0] ^= 0x01
+		vAssert(vBytesEq(r.Marshal(), enc), "re-encoding-independent-of-input-buffer")
+	}
 	r2 := &BatchedTokenRequest{}
 	vAssert(r2.Unmarshal(enc), "canonical-decodes")
 	vAssert(len(r2.token_requests) == len(r.token_requests), "same-count")
